@@ -16,7 +16,8 @@ KANI = {
                            "enc_dec_noarg", "enc_dec_noarg2", "enc_dec_args", "enc_dec_args2", "enc_dec_pushi", "enc_dec_pushic", "enc_dec_pushb"],
                 text={"dec": "K1: for every byte string of <= 35 bytes with this first-byte range: decode either fails or yields an instruction whose encoding is exactly the consumed prefix; never panics",
                       "enc": "K2: encode(op) followed by two arbitrary bytes decodes back to op, consuming exactly the encoding"},
-                timeout=3000),
+                sources=["lib/melvm/src/opcode.rs", "lib/melvm/Cargo.toml", "Cargo.lock"], slow=["enc_dec_pushi", "enc_dec_pushic", "enc_dec_pushb"],
+                timeout=3600),
 }
 
 
@@ -26,8 +27,28 @@ def run(prop, tier):
     cfg = KANI[prop]
     out = {"unit": "kani:" + cfg["mod"], "status": "ok", "reasons": [], "obligations": [], "findings": [], "canaries": {}, "functions": [],
            "assumed_functions": [], "scan": {}, "smt_ms": 0, "cmds": [], "files": [], "bounded": [], "not_covered": []}
-    if tier != "thorough":
-        out["not_covered"].append(f"A-HANDOVER: the per-instruction codec facts K1/K2 (Kani harnesses {cfg['file']}) are discharged in the thorough tier only ({len(cfg['harnesses'])} harnesses, ~5 CPU-minutes each); the quick tier assumes them")
+    # The Kani runs are slow (15 harnesses, 3 to 30 CPU-minutes each).  A committed record (kani/discharged.json) names the exact source text
+    # (sha256 of the function-bearing files + harness file) for which every harness was discharged by a thorough run.  The quick tier re-runs the
+    # harnesses only when that text differs (i.e. when somebody touched the encoder/decoder); for identical text it reports them as discharged
+    # from the record -- the same CBMC problem has the same answer.
+    import hashlib, json as _json
+    hsh = hashlib.sha256()
+    for rel in cfg.get("sources", []):
+        try:
+            hsh.update(open(os.path.join(REPO, rel), "rb").read())
+        except OSError:
+            hsh.update(b"<missing " + rel.encode() + b">")
+    hsh.update(open(os.path.join(VERIF, cfg["file"]), "rb").read())
+    digest = hsh.hexdigest()
+    rec_path = os.path.join(VERIF, "kani", "discharged.json")
+    rec = _json.load(open(rec_path)) if os.path.exists(rec_path) else {}
+    if tier != "thorough" and rec.get(prop, {}).get("sha256") == digest and set(rec[prop]["harnesses"]) == set(cfg["harnesses"]):
+        for h in cfg["harnesses"]:
+            out["obligations"].append({"id": f"kani/{cfg['mod']}::{h}", "unit": out["unit"], "fn": f"{cfg['crate']}/src/opcode.rs::OpCode::decode+encode", "clause": h,
+                                       "kind": "kani-harness", "text": cfg["text"]["dec" if h.startswith("dec") else "enc"], "props": [prop],
+                                       "verdict": "discharged", "backend": f"kani/cbmc (recorded: identical source text sha256={digest[:16]}, discharged by the thorough run of {rec[prop].get('at', '?')})",
+                                       "characterisation": False, "detail": [], "wall_s": 0.0})
+        out["not_covered"].append("the Kani harnesses were not re-run in this quick run: the encoder/decoder source and the harness file are byte-identical to the text they were discharged for (kani/discharged.json); any edit of those files makes the quick tier run them")
         return [out]
     d = tempfile.mkdtemp(prefix="kani.")
     try:
@@ -55,10 +76,18 @@ def run(prop, tier):
                     return h, "undecided", "CBMC did not complete (no failed check reported): " + txt[-300:], time.time() - t0, " ".join(cmd)
                 return h, "failed", fails[:5], time.time() - t0, " ".join(cmd)
             return h, "undecided", txt[-600:], time.time() - t0, " ".join(cmd)
-        first = one(cfg["harnesses"][0])
+        todo = list(cfg["harnesses"])
+        skipped = []
+        if tier != "thorough":
+            # quick tier after an edit of the encoder/decoder: the three harnesses over symbolic 256-bit / 33-byte literals take 15-35 minutes each;
+            # they are left to the thorough tier (reported undecided here), the other twelve (~3 min each) run now
+            skipped = [h for h in todo if h in cfg.get("slow", [])]
+            todo = [h for h in todo if h not in skipped]
+        first = one(todo[0])
         res = [first]
         with cf.ThreadPoolExecutor(max_workers=3) as ex:   # each CBMC run peaks at 10-15 GB
-            res += list(ex.map(one, cfg["harnesses"][1:]))
+            res += list(ex.map(one, todo[1:]))
+        res += [(h, "undecided", "not re-run in the quick tier (slow harness): run the thorough tier", 0.0, "-") for h in skipped]
         for h, verdict, detail, wall, cmd in res:
             out["cmds"].append(cmd)
             out["obligations"].append({"id": f"kani/{cfg['mod']}::{h}", "unit": out["unit"], "fn": f"{cfg['crate']}/src/opcode.rs::OpCode::decode+encode", "clause": h,
@@ -67,6 +96,10 @@ def run(prop, tier):
             if verdict == "undecided":
                 out["status"] = "undecided"
                 out["reasons"].append(f"kani harness {h}: {str(detail)[:200]}")
+        if out["status"] == "ok" and all(o["verdict"] == "discharged" for o in out["obligations"]) and os.environ.get("VERIF_REPO", "/repo") == "/repo":
+            rec[prop] = {"sha256": digest, "harnesses": cfg["harnesses"], "at": time.strftime("%Y-%m-%d"), "sources": cfg.get("sources", []),
+                         "wall_s": {o["clause"]: o["wall_s"] for o in out["obligations"]}}
+            _json.dump(rec, open(rec_path, "w"), indent=1, sort_keys=True)
     finally:
         shutil.rmtree(d, ignore_errors=True)
     return [out]
